@@ -272,17 +272,25 @@ class BaseObserver(EventDispatcher):
         return self._emitters
 
     def start(self) -> None:
-        for emitter in self._emitters.copy():
-            try:
-                emitter.start()
-            except Exception:
-                # The watch of an emitter that cannot be started is unscheduled as a whole:
-                # keeping its handlers would serve them again once the watch is re-scheduled.
-                self._remove_emitter(emitter)
-                self._handlers.pop(emitter.watch, None)
-                self._watches.discard(emitter.watch)
-                raise
-        super().start()
+        # Under the observer lock, like every other access to the registry: a concurrent
+        # unschedule()/stop() must not see (or change) the emitter set half way through.
+        with self._lock:
+            if self.ident is not None:
+                # A second start() would re-run on_thread_start() of emitters that are already
+                # running before threading refuses it.
+                error = "threads can only be started once"
+                raise RuntimeError(error)
+            for emitter in self._emitters.copy():
+                try:
+                    emitter.start()
+                except Exception:
+                    # The watch of an emitter that cannot be started is unscheduled as a whole:
+                    # keeping its handlers would serve them again once the watch is re-scheduled.
+                    self._remove_emitter(emitter)
+                    self._handlers.pop(emitter.watch, None)
+                    self._watches.discard(emitter.watch)
+                    raise
+            super().start()
 
     def schedule(
         self,
